@@ -13,7 +13,7 @@ State of `Radio`
   ce                CE line
   bad_write         ghost: some W_REGISTER carried a reserved/out-of-range value
   frames            ghost: number of SPI frames so far
-  ce_log            ghost: encodes the order of CE edges vs CONFIG writes (C08)
+  ce_log            ghost: bit 1 set once PRIM_RX was changed by a CONFIG write while CE was high (C08)
 """
 from pyvc.specrt import ite, implies
 
@@ -69,10 +69,6 @@ class Radio:
         return v | (self.reg[0x17] & 0x40)
 
     def set_ce(self, val):
-        # ghost ordering log for C08: bit 0 = CE now; bit 1 = a CONFIG write happened while CE was
-        # high since CE last rose (role changed with CE high)
-        if val and not self.ce:
-            self.ce_log = self.ce_log & 0xFD
         self.ce = val
 
     def xfer(self, mosi):
@@ -154,9 +150,10 @@ class Radio:
         elif r == 8 or r == 9 or r == 0x17 or (0x18 <= r <= 0x1B):
             pass  # read-only / not present
         else:
-            self.reg[r] = val & mask
             if r == 0:
-                self.ce_log = ite(self.ce, self.ce_log | 2, self.ce_log)
+                # ghost (C08): the primary role (PRIM_RX) was changed while CE was high
+                self.ce_log = ite(self.ce and ((self.reg[0] ^ val) & 1) != 0, self.ce_log | 2, self.ce_log)
+            self.reg[r] = val & mask
             if r == 5:
                 self.reg[8] = self.reg[8] & 0x0F  # PLOS_CNT is reset by writing RF_CH
 
